@@ -255,6 +255,11 @@ def run(ctx):
                      instgen.Inst(g.opv["Undef"], "Undef", 999, 998, [])]
             for j in range(n):
                 insts.append(instgen.Inst(g.opv["Undef"], "Undef", 1000, 2000 + j, []))
+            # consumers over the k-th chained value for k around every power of two up to 256 and the last one: no single tracked entry
+            # may be lost, whichever position it was tracked at
+            for j in sorted({0, 1, 2, 3, 6, 7, 8, 12, 13, 14, 15, 16, 17, 30, 31, 32, 33, 62, 63, 64, 65, 126, 127, 128, 129, 253, 254, 255, 256, 257, n - 2} & set(range(n - 1))):
+                insts.append(instgen.Inst(g.opv["Switch"], "Switch", None, None,
+                                          [instgen.Op("w", g.vix["IdRef"], 2000 + j), instgen.Op("w", g.vix["IdRef"], 9)] + g.literal(True) + [instgen.Op("w", g.vix["IdRef"], 9)]))
             insts.append(instgen.Inst(g.opv["Switch"], "Switch", None, None,
                                       [instgen.Op("w", g.vix["IdRef"], 2000 + n - 1), instgen.Op("w", g.vix["IdRef"], 9)] + g.literal(True) + [instgen.Op("w", g.vix["IdRef"], 9)]))
             insts.append(instgen.Inst(g.opv["Switch"], "Switch", None, None,
@@ -264,7 +269,7 @@ def run(ctx):
                 words += i.words()
             r = "parse " + instgen.to_bytes(words).hex()
             reqs.append(r)
-            metas[r] = (insts, ["switch:1x2", "switch:1x1"])
+            metas[r] = (insts, ["switch:1x2"] * (len([i_ for i_ in insts if i_.name == "Switch"]) - 1) + ["switch:1x1"])
     # a parse that is *aborted* (parse error, consumer stop, consumer error) after it has seen type declarations, followed by a parse
     # that uses the same ids without declaring them: one word per literal, whatever the earlier parse had declared
     for w in (64, 128, 8):
